@@ -171,6 +171,15 @@ fn sweep(rep: &mut Rep, rng: &mut Rng, resp: &ctap1::Response, parts: &Parts) {
                 judge(rep, resp, parts, cap, &vec![0x5a; cap - free]);
             }
         }
+        // buffers beyond 64 KiB (16-bit arithmetic on capacity / free space), sampled
+        if rng.chance(1, 6) {
+            for &cap in &[65535usize, 65536, 65537, 70000, 131072] {
+                if cap >= free {
+                    let plen = if rng.bool() { 0 } else { cap - free };
+                    judge(rep, resp, parts, cap, &vec![0xc3; plen]);
+                }
+            }
+        }
     }
     rep.count_max("max_response_len", total as u64);
 }
